@@ -190,7 +190,8 @@ class Impl:
         g = np.array(fill["words"], dtype=np.uint32).view(np.float32)
         flat = data.reshape(-1)
         flat[miss] = g[:int(miss.sum())]
-        return flat.reshape(F, P, T, D), conf.copy()
+        lay = len(case["data"]) + F + 2 * P + 3 * T          # memory layout handed to the constructor: a function of the case only
+        return common.vary_layout(flat.reshape(F, P, T, D), lay), common.vary_layout(conf.copy(), lay + 1)
 
     def pose(self, case, fill):
         from pose_format.numpy.pose_body import NumPyPoseBody
